@@ -17,6 +17,44 @@ fn pick<T: Clone>(w: &mut World, v: &[T]) -> T {
     v[i].clone()
 }
 
+/// Other packagings of the same tick arrays for `two_hop_swap_v2` (C10: the outcome must not depend on how the arrays are supplied):
+/// per leg either the canonical three static slots, or the first array three times in the static slots with the other two in the
+/// leg's supplemental slice, or the static slots in reverse order.  `variant` = 3 x (leg two's choice) + (leg one's choice).
+#[allow(clippy::too_many_arguments)]
+fn repackage_two_hop(ix: &mut crate::world::Ix, variant: u8, amount: u64, threshold: u64, exact_in: bool, d1: bool, d2: bool, l1: u128, l2: u128) {
+    use anchor_lang::InstructionData;
+    use solana_program::instruction::AccountMeta;
+    use whirlpool::util::{AccountsType, RemainingAccountsInfo, RemainingAccountsSlice};
+    if ix.name != "two_hop_swap_v2" || variant == 0 {
+        return;
+    }
+    let mut slices = vec![];
+    for (leg, choice, ty) in [("one", variant % 3, AccountsType::SupplementalTickArraysOne), ("two", variant / 3 % 3, AccountsType::SupplementalTickArraysTwo)] {
+        let t: Vec<_> = (0..3).map(|i| ix.key(&format!("tick_array_{leg}_{i}"))).collect();
+        match choice {
+            1 => {
+                for i in 0..3 {
+                    ix.set_key(&format!("tick_array_{leg}_{i}"), t[0]);
+                }
+                for (i, k) in [t[1], t[2]].iter().enumerate() {
+                    ix.metas.push(AccountMeta::new(*k, false));
+                    ix.extra.push(format!("supplemental_{leg}_{i}"));
+                }
+                slices.push(RemainingAccountsSlice { accounts_type: ty, length: 2 });
+            }
+            2 => {
+                for i in 0..3 {
+                    ix.set_key(&format!("tick_array_{leg}_{i}"), t[2 - i]);
+                }
+            }
+            _ => {}
+        }
+    }
+    let info = if slices.is_empty() { None } else { Some(RemainingAccountsInfo { slices }) };
+    ix.data = whirlpool::instruction::TwoHopSwapV2 { amount, other_amount_threshold: threshold, amount_specified_is_input: exact_in, a_to_b_one: d1, a_to_b_two: d2, sqrt_price_limit_one: l1, sqrt_price_limit_two: l2, remaining_accounts_info: info }.data();
+    ix.args["packaging"] = json!(variant);
+}
+
 thread_local! {
     /// set by `build`: trading on the adaptive-fee pool P2 is not enabled yet
     static TRADE_PENDING: std::cell::Cell<bool> = std::cell::Cell::new(false);
@@ -186,17 +224,71 @@ pub fn run(seed: u64, worlds: usize, attempts: usize, rec: &mut Recorder) {
                 rec.tick_clock(&mut w, dt);
             }
             let (p1, p2, d1, d2) = if hold { legs[[0usize, 1, 4, 5][att % 4]] } else if fee_on_a { legs[fee_routes[w.rng.gen_range(0..4)]] } else if w.rng.gen_bool(0.9) { legs[w.rng.gen_range(0..6)] } else { legs[w.rng.gen_range(6..legs.len())] };
+            // now and then the second pool's price is first moved next to the edge of its tick array in the direction of its leg, so
+            // that the leg crosses into the next array
+            if !hold && att % 7 == 3 && p1 != p2 {
+                let sp = w.pools[p2].spacing as i32;
+                let span = sp * 88;
+                let tcur = w.pool_tick(p2);
+                let s0 = tcur.div_euclid(span) * span;
+                let target = if d2 { s0 + w.rng.gen_range(0..3) * sp + 1 } else { s0 + span - 1 - w.rng.gen_range(0..3) * sp };
+                let (cur, lim) = (w.pool_sqrt_price(p2), price_of(target));
+                if lim != cur && lim > MIN_SQRT_PRICE && lim < MAX_SQRT_PRICE {
+                    let pv2 = w.pools[p2].v2 || t22;
+                    let ix = w.ix_swap(p2, "U2", 1u64 << 56, 0, lim, true, lim < cur, pv2);
+                    rec.exec(&mut w, &ix, false, json!("edge"));
+                }
+            }
             let exact_in = w.rng.gen_bool(0.6);
             let amount = log_uniform(&mut w, 3, 42) as u64;
             let (l1, l2) = (random_limit(&mut w, p1, d1), random_limit(&mut w, p2, d2));
             let v2 = t22 || if hold { att % 8 < 4 } else { w.rng.gen_bool(0.5) };
             let vac = if exact_in { 0 } else { u64::MAX };
             // (1) the two-hop with a vacuous threshold on a copy -> realised amounts
+            // (a third of the v2 two-hops are submitted in another packaging of their tick arrays; the single swaps they are compared
+            // with always use the canonical one)
+            // (the canonical packaging is run first, on a copy: a two-hop one of whose legs leaves the tick array it starts in is
+            // nearly always repackaged - that is where the supplemental arrays matter)
+            let leaves_array = |before: &World, after: &World, pool: &str| {
+                let span = before.pools[pool].spacing as i32 * 88;
+                before.pool_tick(pool).div_euclid(span) != after.pool_tick(pool).div_euclid(span)
+            };
+            let (canon, canon_ok) = if v2 {
+                let mut c = w.clone();
+                let ix_c = c.ix_two_hop(p1, p2, "U1", amount, vac, exact_in, d1, d2, l1, l2, v2);
+                let ok = c.exec_raw(&ix_c.instruction()).ok();
+                (Some(c), ok)
+            } else {
+                (None, false)
+            };
+            let crosses = canon_ok && canon.as_ref().map(|c| leaves_array(&w, c, p1) || leaves_array(&w, c, p2)).unwrap_or(false);
+            let packaging: u8 = if v2 && w.rng.gen_bool(if crosses { 0.9 } else { 0.25 }) { w.rng.gen_range(1..9) } else { 0 };
             let mut t = w.clone();
-            let ix_t = t.ix_two_hop(p1, p2, "U1", amount, vac, exact_in, d1, d2, l1, l2, v2);
+            let mut ix_t = t.ix_two_hop(p1, p2, "U1", amount, vac, exact_in, d1, d2, l1, l2, v2);
+            repackage_two_hop(&mut ix_t, packaging, amount, vac, exact_in, d1, d2, l1, l2);
             let ex_t = t.exec_raw(&ix_t.instruction());
             let (m_in, m_mid) = mints_of(&w, p1, d1);
             let (_, m_out) = mints_of(&w, p2, d2);
+            // (1b) a repackaged two-hop is also compared with the canonical packaging of the same two-hop (C10: same outcome,
+            // success or refusal, however the arrays are supplied)
+            let pack_info = if packaging != 0 {
+                let summary = |before: &World, after: &World, ok: bool| {
+                    if !ok {
+                        return json!({"ok": false, "in": 0, "out": 0, "price1": 0, "price2": 0});
+                    }
+                    json!({"ok": true, "in": nu((-tok_delta(before, after, "U1", &m_in)).max(0) as u128), "out": nu(tok_delta(before, after, "U1", &m_out).max(0) as u128),
+                           "price1": nu(after.pool_sqrt_price(p1)), "price2": nu(after.pool_sqrt_price(p2))})
+                };
+                let c = canon.as_ref().unwrap();
+                let same_bank = canon_ok == ex_t.ok() && (!canon_ok || c.bank.accts == t.bank.accts);
+                let mut res = summary(&w, &t, ex_t.ok());
+                res["sameAccounts"] = json!(same_bank);
+                let mut rf = summary(&w, c, canon_ok);
+                rf["sameAccounts"] = json!(true);
+                json!({"present": true, "label": format!("twohop_v2_packaging_{packaging}"), "expectSame": true, "truncated": false, "foreign": false, "result": res, "ref": rf})
+            } else {
+                json!({"present": false})
+            };
             // (2) the two single swaps on another copy
             let mut s = w.clone();
             let sv2 = |_w: &World, _pool: &str| t22 || v2;
@@ -257,9 +349,10 @@ pub fn run(seed: u64, worlds: usize, attempts: usize, rec: &mut Recorder) {
             let info = json!({"present": true, "s1": s1, "s2": s2, "vacuousOk": ex_t.ok(), "differing": differing, "realised": nu(realised as u128),
                                "acctIn": format!("utok:U1:{m_in}"), "acctMid": format!("utok:U1:{m_mid}"), "acctOut": format!("utok:U1:{m_out}"), "distinct": m_in != m_out && m_in != m_mid && m_mid != m_out});
             // (4) the real, recorded two-hop
-            let ix = w.ix_two_hop(p1, p2, "U1", amount, threshold, exact_in, d1, d2, l1, l2, v2);
+            let mut ix = w.ix_two_hop(p1, p2, "U1", amount, threshold, exact_in, d1, d2, l1, l2, v2);
+            repackage_two_hop(&mut ix, packaging, amount, threshold, exact_in, d1, d2, l1, l2);
             let must = ex_t.ok() && (threshold == vac || threshold == realised || (exact_in && threshold < realised) || (!exact_in && threshold > realised));
-            rec.exec(&mut w, &ix, must, json!({"twohop": info}));
+            rec.exec(&mut w, &ix, must, json!({"twohop": info, "pack": pack_info}));
         }
     }
     rec.flush();
